@@ -143,10 +143,14 @@ def d_stmt(s):
 
 def real_outcome(env, src):
     from jinja2.exceptions import TemplateSyntaxError
+    from . import lib as _lib
     try:
-        tree = env.parse(src)
+        with _lib.cpu_guard(5.0):
+            tree = env.parse(src)
     except TemplateSyntaxError as e:
         return "err %d" % e.lineno
+    except _lib.Hang:
+        return "exc Hang"
     except RecursionError:
         return "exc RecursionError"
     except Exception as e:  # noqa: the property says this never happens
@@ -397,10 +401,15 @@ def run_parse_tie_config(ctx, name, kw):
     tag = "" if name == "default" else name + "_"
     items, lines = [], []
     for src, kind in sources(ctx, name, kw, env):
+        from . import lib as _lib
         try:
-            ln = enc_stream(env, src)
+            with _lib.cpu_guard(5.0):
+                ln = enc_stream(env, src)
         except TemplateSyntaxError:
             ctx.count("parse_tie_" + tag + "lexer_error")
+            continue
+        except _lib.Hang:
+            ctx.reject({"kind": "stmt-parse", "src": src, "config": name}, "lexing did not finish within 5 s of CPU time", None)
             continue
         except Exception as e:
             ctx.reject({"kind": "stmt-parse", "src": src, "config": name}, "the lexer raised " + type(e).__name__, "C01:lexer-exception:" + type(e).__name__)
